@@ -5,13 +5,16 @@
 From DnsV Require Export Model.Batch Spec.MapOfLists.
 Open Scope N_scope.
 
-Record obs := mkobs { fe_err : N; vals : list bytes; find_err : N; find_val : bytes }.
+(* present: is the key itself in the store (Del of a never-stored value gives ErrNXVal, not ErrNXKey)?
+   0 no, 1 yes, 2 not observed *)
+Record obs := mkobs { fe_err : N; vals : list bytes; find_err : N; find_val : bytes; present : N }.
 Record stp := mkstep { sop : op; serr : N; sobs : list obs }.   (* sobs: one per key, in order *)
 Record case := mk { ckeys : list bytes; csteps : list stp }.
 
 Definition obs_eqb (a b : obs) : bool :=
   (fe_err a =? fe_err b) && vlist_eqb (vals a) (vals b) &&
-  (find_err a =? find_err b) && bytes_eqb (find_val a) (find_val b).
+  (find_err a =? find_err b) && bytes_eqb (find_val a) (find_val b) &&
+  ((present b =? 2) || (present a =? present b)).   (* a = model, b = observed *)
 
 Fixpoint all2 {A B} (f : A -> B -> bool) (l1 : list A) (l2 : list B) : bool :=
   match l1, l2 with
@@ -25,9 +28,10 @@ Fixpoint all2 {A B} (f : A -> B -> bool) (l1 : list A) (l2 : list B) : bool :=
 (* what the model's Find / ForEach return for key k *)
 Definition model_obs (s : store) (k : bytes) : obs :=
   let '(vs, e) := rdb_for_each s k in
+  let p := match s k with Some _ => 1 | None => 0 end in
   match rdb_find s k with
-  | Ok v => mkobs e vs 0 v
-  | Err fe => mkobs e vs fe []
+  | Ok v => mkobs e vs 0 v p
+  | Err fe => mkobs e vs fe [] p
   end.
 
 (* the sort instance the model is evaluated with: a stable sort.  sort.Slice may
@@ -96,12 +100,13 @@ Fixpoint seen (keys : list bytes) (os : list obs) : smap :=
 Definition same_on (keys : list bytes) (m1 m2 : smap) : bool :=
   forallb (fun k => vlist_eqb (m1 k) (m2 k)) keys.
 
-(* reading: ForEach succeeds, Find gives the first value, or fails when there is none *)
+(* reading: ForEach succeeds, Find gives the first value, or fails when there is none;
+   the key is there iff it has a value (it goes with its last value) *)
 Definition read_ok (o : obs) : bool :=
   (fe_err o =? 0) &&
   match vals o with
-  | [] => negb (find_err o =? 0)
-  | v :: _ => (find_err o =? 0) && bytes_eqb (find_val o) v
+  | [] => negb (find_err o =? 0) && negb (present o =? 1)
+  | v :: _ => (find_err o =? 0) && bytes_eqb (find_val o) v && negb (present o =? 0)
   end.
 
 (* one step, judged on observations only: pre = map seen before, post = map seen after *)
